@@ -114,8 +114,17 @@ def _check_syntactic(m, run, funcs, summ, contracts):
     with run.corroborating(fl_ok, 'FL3', rules=('FL1.flip', 'LY2.flip2d')):
         flip_rule(m, run)
         flip2d_rule(m, run)
-    sweep_rule(m, run)
+    # sweeping is decided on recorder curves (SW2) and on real curves and surfaces up to the constructed result (SW3); the rule that reads
+    # the two construct calls corroborates
+    n_sw = len(run.obs)
     _sd.sw2(m, run)
+    try:
+        _sd.sw3(m, run)
+    except AnalysisError as ex:
+        run.error(str(ex))
+    sw_ok = len(run.obs) > n_sw and all(o.ok for o in run.obs[n_sw:])
+    with run.corroborating(sw_ok, 'SW2/SW3', rules=('AG8.sweep',)):
+        sweep_rule(m, run)
     _sd.ws5(m, run)       # sweeping and construction go through the rational accessors of all three classes: the three views agree, warm and cold (WS5, shared with C09)
     df1(m, run)
     run.floor('LY1.index-matches-layout', 40, 'index reads checked by the LAYOUT interpreter')
